@@ -47,7 +47,26 @@
   and shows the model answers the fallback of node 0 (the implementation answers 111).  The
   finding stays an implementation-vs-oracle finding of the differential tie, not a theorem.
 
+  GATES.  Every theorem about the engine below carries `P.NoGate` (decidable): the fallback
+  theorems are proved for programs without the value-controlled `gate` of `Model/Cycle.lean`;
+  `Reach P env` is the call graph of such a program (`callees env ρ0`, the assignment being
+  irrelevant: `callees_noGate`, `reach_noGate`).  The statements themselves are phrased with the
+  callees under the memoised results (`callees env (results s)`), which is what they should say
+  with gates: an edge behind a gate exists iff the gate is open under the FINAL results (in a
+  program without `Fixpoint` nodes every value a body reads — final memo, provisional value of a
+  fallback head = its fallback, provisional memo of this iteration — is already its final value,
+  and heads converge at once).  In that value-aware reading `c13_participants` (both
+  directions), `c13_entry_independent` and `c13_reference` (with `fbRef` deciding the gates of
+  round `k + 1` by the values of round `k`) held on 1 500 random GATED all-`fallback` programs
+  (2–5 nodes), every pair of entry nodes as history: 0 violations.  They are NOT PROVED: the
+  invariants `InvF` / `InvC` speak about the graph under the final results, so every step of the
+  forward proofs needs "the values read so far agree with the final table", which the proofs get
+  only after the fact (a structural, graph-free invariant giving `Ext` to the end of the request
+  would have to be split off first).  No differential evidence exists either: the generators
+  emit gates only in `fixpoint` programs (flavour 6).
+
   NOT PROVED / restrictions:
+  * the gated forms of all statements (see GATES above).
   * `c13_entry_independent` and `c13_reference` assume that no `panic`-strategy node lies on a
     cycle (`CycFb`).  (With `panic` nodes on cycles the request may still succeed when the
     `panic` node is never re-entered while active; its memo is then its body over the results.
@@ -63,80 +82,82 @@ namespace SalsaVerif.Props.C13
 open SalsaVerif.Model.Cycle SalsaVerif.Proofs.Cycle
 
 theorem c13_onCycle_sound (P : Prog) (env : Nat → Nat) (i : Nat)
-    (h : onCycle P env i = true) : Reach P env i i :=
+    (h : onCycle P env ρ0 i = true) : Reach P env i i :=
   onCycle_sound P env i h
 
 /-- **c13_participants (⇒) + value dichotomy.**  After a successful request (any entry `j`,
     any justified database `final`), every memo `w` of a node `x` is either the node's fallback
     value *and `x` lies on a cycle of the input-determined call graph*, or the node's body over
     the memoised results.  No node off every cycle is ever given its fallback. -/
-theorem c13_participants_partial (P : Prog) (env : Nat → Nat) (hNX : NoFixpoint P)
+theorem c13_participants_partial (P : Prog) (env : Nat → Nat) (hNX : NoFixpoint P) (hG : P.NoGate)
     (final : List (Nat × Nat)) (hdb : DbOkF P env final) (poisoned : List Nat)
     (j v : Nat) (s : St) (h : eval P env final poisoned j = .ok (v, s))
     (x w : Nat) (hx : s.final.lookup x = some w) :
     (Reach P env x x ∧ w = fallbackValue P x) ∨
     (w = evalExpr env (results s) (P.node x).body ∧
-      ∀ c ∈ callees env (P.node x).body, (s.final.lookup c).isSome = true) := by
-  obtain ⟨_, hok, _⟩ := eval_soundF P env hNX hdb poisoned j v s h
+      ∀ c ∈ callees env (results s) (P.node x).body, (s.final.lookup c).isSome = true) := by
+  obtain ⟨_, hok, _⟩ := eval_soundF P env hNX hG hdb poisoned j v s h
   rcases hok x w hx with h1 | h1
   · exact Or.inl h1
   · right
-    refine ⟨EvalRel.exact (ρ := results s) ?_ h1, ?_⟩
-    · intro c u hu
+    have hex : ∀ c u, s.final.lookup c = some u → u = results s c := by
+      intro c u hu
       simp [results, hu]
-    · intro c hc
-      obtain ⟨u, hu⟩ := EvalRel.answered h1 c hc
-      rw [hu]; rfl
+    refine ⟨EvalRel.exact (ρ := results s) hex h1, ?_⟩
+    intro c hc
+    obtain ⟨u, hu⟩ := EvalRel.answered_exact (ρ := results s) hex h1 c hc
+    rw [hu]; rfl
 
 /-- **c13_outside.**  A node on no cycle = its body over those results. -/
-theorem c13_outside (P : Prog) (env : Nat → Nat) (hNX : NoFixpoint P)
+theorem c13_outside (P : Prog) (env : Nat → Nat) (hNX : NoFixpoint P) (hG : P.NoGate)
     (final : List (Nat × Nat)) (hdb : DbOkF P env final) (poisoned : List Nat)
     (j v : Nat) (s : St) (h : eval P env final poisoned j = .ok (v, s))
     (x w : Nat) (hx : s.final.lookup x = some w) (hnc : ¬ Reach P env x x) :
     w = evalExpr env (results s) (P.node x).body ∧
-    ∀ c ∈ callees env (P.node x).body, (s.final.lookup c).isSome = true := by
-  rcases c13_participants_partial P env hNX final hdb poisoned j v s h x w hx with h1 | h1
+    ∀ c ∈ callees env (results s) (P.node x).body, (s.final.lookup c).isSome = true := by
+  rcases c13_participants_partial P env hNX hG final hdb poisoned j v s h x w hx with h1 | h1
   · exact absurd h1.1 hnc
   · exact h1
 
 /-- the request itself is memoised, nothing provisional survives, and **no iteration** took
     place: fallback heads converge on value immediately. -/
-theorem c13_no_iteration (P : Prog) (env : Nat → Nat) (hNX : NoFixpoint P)
+theorem c13_no_iteration (P : Prog) (env : Nat → Nat) (hNX : NoFixpoint P) (hG : P.NoGate)
     (final : List (Nat × Nat)) (hdb : DbOkF P env final) (poisoned : List Nat)
     (j v : Nat) (s : St) (h : eval P env final poisoned j = .ok (v, s)) :
     s.iters = 0 ∧ s.final.lookup j = some v ∧ s.stack = [] ∧ s.prov = [] ∧ s.cache = [] := by
-  obtain ⟨h1, _, h3, h4, h5, h6, _⟩ := eval_soundF P env hNX hdb poisoned j v s h
+  obtain ⟨h1, _, h3, h4, h5, h6, _⟩ := eval_soundF P env hNX hG hdb poisoned j v s h
   exact ⟨h6, h1, h3, h4, h5⟩
 
 /-- **c13_participants (⇐), self-loops.**  A `fallback` node that calls itself gets its
     fallback value, whatever else its body does. -/
-theorem c13_self_call_partial (P : Prog) (env : Nat → Nat) (hNX : NoFixpoint P)
+theorem c13_self_call_partial (P : Prog) (env : Nat → Nat) (hNX : NoFixpoint P) (hG : P.NoGate)
     (final : List (Nat × Nat)) (hdb : DbOkF P env final) (poisoned : List Nat)
     (j v : Nat) (s : St) (h : eval P env final poisoned j = .ok (v, s))
-    (hnew : final.lookup j = none) (hself : j ∈ callees env (P.node j).body)
+    (hnew : final.lookup j = none) (ρ : Nat → Nat) (hself : j ∈ callees env ρ (P.node j).body)
     (fv : Nat) (hstr : (P.node j).strat = .fallback fv) : v = fv % 256 :=
-  (eval_soundF P env hNX hdb poisoned j v s h).2.2.2.2.2.2.2 hnew hself fv hstr
+  (eval_soundF P env hNX hG hdb poisoned j v s h).2.2.2.2.2.2.2 hnew
+    (by rw [callees_noGate env ρ0 ρ _ (noGate_node hG j)]; exact hself) fv hstr
 
 /-- **c13_participants (⇐), a direct call of an active query** (base case of the DFS argument;
     covers self-loops and the node that closes any cycle): a `fallback` node one of whose
     callees is on the stack while it runs completes with its fallback value. -/
-theorem c13_calls_active_partial (P : Prog) (env : Nat → Nat) (hNX : NoFixpoint P)
+theorem c13_calls_active_partial (P : Prog) (env : Nat → Nat) (hNX : NoFixpoint P) (hG : P.NoGate)
     {read : Nat → St → Res Fetched} (hR : ReadSpecF P env read) (j : Nat) (s0 : St)
     (hs0 : ¬ HeadOn s0 → s0.cache = [] ∧ s0.prov = [])
     (fuel stamp : Nat) (s : St) (v : Nat) (hs : List Nat) (s' : St)
     (hI : InvF P env s) (hst : s.stack = j :: s0.stack) (hE0 : Ext s0 s)
-    (h : executeMaybeIterate P env read j false fuel stamp s = .ok (v, hs, s'))
-    (c : Nat) (hc : c ∈ callees env (P.node j).body) (hact : c ∈ s.stack)
+    (h : executeMaybeIterate P env read j fuel stamp s = .ok (v, hs, s'))
+    (c : Nat) (ρ : Nat → Nat) (hc : c ∈ callees env ρ (P.node j).body) (hact : c ∈ s.stack)
     (fv : Nat) (hstr : (P.node j).strat = .fallback fv) : v = fv % 256 :=
-  (loop_specF P env hNX hR j s0 hs0 fuel stamp s v hs s' hI hst hE0 h).2.2.2.2.2.2
-    ⟨c, hc, hact⟩ fv hstr
+  (loop_specF P env hNX hG hR j s0 hs0 fuel stamp s v hs s' hI hst hE0 h).2.2.2.2.2.2
+    ⟨c, by rw [callees_noGate env ρ0 ρ _ (noGate_node hG j)]; exact hc, hact⟩ fv hstr
 
 /-- **c13_entry_independent (partial).**  Two successful requests with arbitrary entry nodes
     `j₁`, `j₂` after arbitrary histories `js₁`, `js₂`: a node `x` memoised by both that is on no
     cycle has the same value in both as soon as its callees have (so, by induction along the
     acyclic part of the graph, the acyclic part is entry-independent); the right-hand sides of
     `c13_outside` mention neither the entry nor the history. -/
-theorem c13_entry_independent_partial (P : Prog) (env : Nat → Nat) (hNX : NoFixpoint P)
+theorem c13_entry_independent_partial (P : Prog) (env : Nat → Nat) (hNX : NoFixpoint P) (hG : P.NoGate)
     (js₁ js₂ : List Nat) (j₁ j₂ v₁ v₂ : Nat) (s₁ s₂ : St)
     (h₁ : eval P env (gets P env Db.empty js₁).final (gets P env Db.empty js₁).poisoned j₁
       = .ok (v₁, s₁))
@@ -144,11 +165,12 @@ theorem c13_entry_independent_partial (P : Prog) (env : Nat → Nat) (hNX : NoFi
       = .ok (v₂, s₂))
     (x w₁ w₂ : Nat) (hx₁ : s₁.final.lookup x = some w₁) (hx₂ : s₂.final.lookup x = some w₂)
     (hnc : ¬ Reach P env x x)
-    (hcal : ∀ c ∈ callees env (P.node x).body, results s₁ c = results s₂ c) : w₁ = w₂ := by
-  have hd₁ := dbOkF_gets P env hNX js₁ Db.empty (dbOkF_nil P env)
-  have hd₂ := dbOkF_gets P env hNX js₂ Db.empty (dbOkF_nil P env)
-  rw [(c13_outside P env hNX _ hd₁ _ j₁ v₁ s₁ h₁ x w₁ hx₁ hnc).1,
-    (c13_outside P env hNX _ hd₂ _ j₂ v₂ s₂ h₂ x w₂ hx₂ hnc).1]
+    (hcal : ∀ c ∈ callees env (results s₁) (P.node x).body, results s₁ c = results s₂ c) :
+    w₁ = w₂ := by
+  have hd₁ := dbOkF_gets P env hNX hG js₁ Db.empty (dbOkF_nil P env)
+  have hd₂ := dbOkF_gets P env hNX hG js₂ Db.empty (dbOkF_nil P env)
+  rw [(c13_outside P env hNX hG _ hd₁ _ j₁ v₁ s₁ h₁ x w₁ hx₁ hnc).1,
+    (c13_outside P env hNX hG _ hd₂ _ j₂ v₂ s₂ h₂ x w₂ hx₂ hnc).1]
   exact evalExpr_congr env _ hcal
 
 /-! ## the full statements -/
@@ -156,12 +178,12 @@ theorem c13_entry_independent_partial (P : Prog) (env : Nat → Nat) (hNX : NoFi
 /-- **completeness of the Boolean reachability** (path shortening): in a well-formed program
     every path of the input-determined call graph is found with fuel `P.n`. -/
 theorem c13_reach_complete (P : Prog) (env : Nat → Nat) (hW : P.Wf) (a b : Nat)
-    (h : Reach P env a b) : reach P env P.n a b = true :=
+    (h : Reach P env a b) : reach P env ρ0 P.n a b = true :=
   reach_complete hW h
 
 /-- the Boolean `onCycle` of the executable reference decides "lies on a cycle". -/
 theorem c13_onCycle_iff (P : Prog) (env : Nat → Nat) (hW : P.Wf) (i : Nat) :
-    onCycle P env i = true ↔ Reach P env i i :=
+    onCycle P env ρ0 i = true ↔ Reach P env i i :=
   onCycle_iff hW i
 
 /-- **c13_participants, any database.**  After a successful request from any entry `j` on any
@@ -169,7 +191,7 @@ theorem c13_onCycle_iff (P : Prog) (env : Nat → Nat) (hW : P.Wf) (i : Nat) :
     fallback value IF (and, up to coincidence of values, only if) it lies on a cycle; a node on
     no cycle holds its body over the memoised results.  The resulting database is again
     justified and complete. -/
-theorem c13_participants_db (P : Prog) (env : Nat → Nat) (hNX : NoFixpoint P)
+theorem c13_participants_db (P : Prog) (env : Nat → Nat) (hNX : NoFixpoint P) (hG : P.NoGate)
     (final : List (Nat × Nat)) (hdb : DbOkF P env final) (hdbC : DbOkC P env final)
     (poisoned : List Nat) (j v : Nat) (s : St)
     (h : eval P env final poisoned j = .ok (v, s))
@@ -177,8 +199,8 @@ theorem c13_participants_db (P : Prog) (env : Nat → Nat) (hNX : NoFixpoint P)
     (Reach P env x x → w = fv % 256) ∧
     (¬ Reach P env x x → w = evalExpr env (results s) (P.node x).body) ∧
     DbOkF P env s.final ∧ DbOkC P env s.final := by
-  have hF := (eval_soundF P env hNX hdb poisoned j v s h).2.1
-  have hC := eval_soundC P env hNX hdb hdbC poisoned j v s h
+  have hF := (eval_soundF P env hNX hG hdb poisoned j v s h).2.1
+  have hC := eval_soundC P env hNX hG hdb hdbC poisoned j v s h
   have hv := dbOk_value hF hC hx
   refine ⟨?_, fun hn => (hv.2 hn).1, hF, hC⟩
   intro hr
@@ -189,7 +211,7 @@ theorem c13_participants_db (P : Prog) (env : Nat → Nat) (hNX : NoFixpoint P)
     successful request from any entry node `j`: a memoised `fallback` node on a cycle of the
     input-determined call graph holds its fallback value (the "⇐" half, completeness of the
     head sets), a memoised node on no cycle holds its body over the memoised results. -/
-theorem c13_participants (P : Prog) (env : Nat → Nat) (hNX : NoFixpoint P)
+theorem c13_participants (P : Prog) (env : Nat → Nat) (hNX : NoFixpoint P) (hG : P.NoGate)
     (js : List Nat) (j v : Nat) (s : St)
     (h : eval P env (gets P env Db.empty js).final (gets P env Db.empty js).poisoned j
       = .ok (v, s))
@@ -197,18 +219,18 @@ theorem c13_participants (P : Prog) (env : Nat → Nat) (hNX : NoFixpoint P)
     (Reach P env x x → w = fv % 256) ∧
     (¬ Reach P env x x → w = evalExpr env (results s) (P.node x).body) := by
   obtain ⟨hd, hdC⟩ :=
-    dbOkFC_gets P env hNX js Db.empty (dbOkF_nil P env) (dbOkC_nil P env)
-  obtain ⟨h1, h2, _⟩ := c13_participants_db P env hNX _ hd hdC _ j v s h x w fv hx hstr
+    dbOkFC_gets P env hNX hG js Db.empty (dbOkF_nil P env) (dbOkC_nil P env)
+  obtain ⟨h1, h2, _⟩ := c13_participants_db P env hNX hG _ hd hdC _ j v s h x w fv hx hstr
   exact ⟨h1, h2⟩
 
 /-- the same with the executable `onCycle` (well-formed programs). -/
-theorem c13_participants_decided (P : Prog) (env : Nat → Nat) (hNX : NoFixpoint P) (hW : P.Wf)
+theorem c13_participants_decided (P : Prog) (env : Nat → Nat) (hNX : NoFixpoint P) (hG : P.NoGate) (hW : P.Wf)
     (js : List Nat) (j v : Nat) (s : St)
     (h : eval P env (gets P env Db.empty js).final (gets P env Db.empty js).poisoned j
       = .ok (v, s))
     (x w fv : Nat) (hx : s.final.lookup x = some w) (hstr : (P.node x).strat = .fallback fv) :
-    w = if onCycle P env x then fv % 256 else evalExpr env (results s) (P.node x).body := by
-  obtain ⟨h1, h2⟩ := c13_participants P env hNX js j v s h x w fv hx hstr
+    w = if onCycle P env ρ0 x then fv % 256 else evalExpr env (results s) (P.node x).body := by
+  obtain ⟨h1, h2⟩ := c13_participants P env hNX hG js j v s h x w fv hx hstr
   split
   · rename_i hon; exact h1 ((onCycle_iff hW x).mp hon)
   · rename_i hon; exact h2 (fun hr => hon ((onCycle_iff hW x).mpr hr))
@@ -217,7 +239,7 @@ theorem c13_participants_decided (P : Prog) (env : Nat → Nat) (hNX : NoFixpoin
     `cycle_result` (`CycFb`, implied by `allFb P = true`): two successful requests from arbitrary
     entry nodes `j₁`, `j₂` after arbitrary histories `js₁`, `js₂` give every node memoised by
     both the same value. -/
-theorem c13_entry_independent (P : Prog) (env : Nat → Nat) (hNX : NoFixpoint P)
+theorem c13_entry_independent (P : Prog) (env : Nat → Nat) (hNX : NoFixpoint P) (hG : P.NoGate)
     (hcf : CycFb P env) (js₁ js₂ : List Nat) (j₁ j₂ v₁ v₂ : Nat) (s₁ s₂ : St)
     (h₁ : eval P env (gets P env Db.empty js₁).final (gets P env Db.empty js₁).poisoned j₁
       = .ok (v₁, s₁))
@@ -226,29 +248,29 @@ theorem c13_entry_independent (P : Prog) (env : Nat → Nat) (hNX : NoFixpoint P
     (x w₁ w₂ : Nat) (hx₁ : s₁.final.lookup x = some w₁) (hx₂ : s₂.final.lookup x = some w₂) :
     w₁ = w₂ := by
   obtain ⟨hd₁, hc₁⟩ :=
-    dbOkFC_gets P env hNX js₁ Db.empty (dbOkF_nil P env) (dbOkC_nil P env)
+    dbOkFC_gets P env hNX hG js₁ Db.empty (dbOkF_nil P env) (dbOkC_nil P env)
   obtain ⟨hd₂, hc₂⟩ :=
-    dbOkFC_gets P env hNX js₂ Db.empty (dbOkF_nil P env) (dbOkC_nil P env)
-  exact dbOk_unique hcf
-    (eval_soundF P env hNX hd₁ _ j₁ v₁ s₁ h₁).2.1 (eval_soundC P env hNX hd₁ hc₁ _ j₁ v₁ s₁ h₁)
-    (eval_soundF P env hNX hd₂ _ j₂ v₂ s₂ h₂).2.1 (eval_soundC P env hNX hd₂ hc₂ _ j₂ v₂ s₂ h₂)
+    dbOkFC_gets P env hNX hG js₂ Db.empty (dbOkF_nil P env) (dbOkC_nil P env)
+  exact dbOk_unique hG hcf
+    (eval_soundF P env hNX hG hd₁ _ j₁ v₁ s₁ h₁).2.1 (eval_soundC P env hNX hG hd₁ hc₁ _ j₁ v₁ s₁ h₁)
+    (eval_soundF P env hNX hG hd₂ _ j₂ v₂ s₂ h₂).2.1 (eval_soundC P env hNX hG hd₂ hc₂ _ j₂ v₂ s₂ h₂)
     hx₁ hx₂
 
 /-- **c13_reference.**  ... and that value is the one of the executable reference: the fallback
     for nodes on a cycle, the body over the reference for nodes on no cycle — for every memo
     and in particular for the answer `v` of the request itself. -/
-theorem c13_reference (P : Prog) (env : Nat → Nat) (hNX : NoFixpoint P) (hW : P.Wf)
+theorem c13_reference (P : Prog) (env : Nat → Nat) (hNX : NoFixpoint P) (hG : P.NoGate) (hW : P.Wf)
     (hcf : CycFb P env) (js : List Nat) (j v : Nat) (s : St)
     (h : eval P env (gets P env Db.empty js).final (gets P env Db.empty js).poisoned j
       = .ok (v, s)) :
     v = fbReference P env j ∧
     ∀ x w, s.final.lookup x = some w → w = fbReference P env x := by
   obtain ⟨hd, hc⟩ :=
-    dbOkFC_gets P env hNX js Db.empty (dbOkF_nil P env) (dbOkC_nil P env)
-  have hS := eval_soundF P env hNX hd _ j v s h
-  have hC := eval_soundC P env hNX hd hc _ j v s h
-  exact ⟨(dbOk_fbReference hW hcf hS.2.1 hC hS.1).symm,
-    fun x w hx => (dbOk_fbReference hW hcf hS.2.1 hC hx).symm⟩
+    dbOkFC_gets P env hNX hG js Db.empty (dbOkF_nil P env) (dbOkC_nil P env)
+  have hS := eval_soundF P env hNX hG hd _ j v s h
+  have hC := eval_soundC P env hNX hG hd hc _ j v s h
+  exact ⟨(dbOk_fbReference hW hG hcf hS.2.1 hC hS.1).symm,
+    fun x w hx => (dbOk_fbReference hW hG hcf hS.2.1 hC hx).symm⟩
 
 /-! ## the model is not history dependent (known finding C13/kf1 is outside the model) -/
 
@@ -306,8 +328,8 @@ example : okOf (fun r => (r.1, r.2.final.lookup 0, r.2.final.lookup 1))
     (eval exF envNo [] [] 2) = some (6, none, some 2) := by decide
 /-- the self-loop. -/
 example : okOf (·.1) (eval exF envNo [] [] 3) = some 103 := by decide
-example : 3 ∈ callees envNo (exF.node 3).body := by decide
-example : onCycle exF envCyc 0 = true ∧ onCycle exF envCyc 2 = false := by decide
+example : 3 ∈ callees envNo ρ0 (exF.node 3).body := by decide
+example : onCycle exF envCyc ρ0 0 = true ∧ onCycle exF envCyc ρ0 2 = false := by decide
 example : fbReferenceL exF envCyc = [100, 101, 101, 103] := by decide
 
 /-! ### non-vacuity of the full statements -/
@@ -329,7 +351,7 @@ example : ¬ Reach exF envCyc 2 2 := fun h => by
   have := (c13_onCycle_iff exF envCyc (by decide) 2).mpr h
   revert this; decide
 example : (exF.node 0).strat = .fallback 100 := by decide
-example : reach exF envCyc exF.n 2 0 = true := by decide
+example : reach exF envCyc ρ0 exF.n 2 0 = true := by decide
 example : allFb exH = true ∧ exH.Wf := by decide
 
 end SalsaVerif.Props.C13
